@@ -1,4 +1,5 @@
 import collections
+import os
 import struct
 import sys
 
@@ -11,6 +12,11 @@ from .metacommand_impl import get_as_int
 from . import operators
 from .types import Instruction, Label, Assignment, InstructionPointer, WordList, ParenthesizedExpression
 from . import reports
+
+
+# Verification hooks (off unless PDPY11_VERIF=1): record what each statement was
+# given and what it produced. Nothing is evaluated here.
+VERIF_HOOKS = os.environ.get("PDPY11_VERIF") == "1"
 
 
 class Compiler:
@@ -54,6 +60,8 @@ class Compiler:
                 state = {**state, "insn": insn, "emit_address": addr, "local_symbol_prefix": local_symbol_prefix}
                 if isinstance(insn, Instruction):
                     chunk = self.compile_insn(insn, state)
+                    if VERIF_HOOKS:
+                        self.verif_hook("insn", insn, state, chunk)
                     if chunk is not None:
                         data += chunk
                         if isinstance(chunk, BaseDeferred):
@@ -63,6 +71,8 @@ class Compiler:
 
                 elif isinstance(insn, WordList):
                     chunk = self.compile_word_list(insn, insn.words, state)
+                    if VERIF_HOOKS:
+                        self.verif_hook("words", insn, state, chunk)
                     data += chunk
                     if isinstance(chunk, BaseDeferred):
                         addr += chunk.length()
@@ -81,6 +91,8 @@ class Compiler:
                         continue
 
                     self.compile_label(insn, addr, state)
+                    if VERIF_HOOKS:
+                        self.verif_hook("label", insn, state, None)
                     if not insn.local:
                         local_symbol_prefix = f".local{self.next_local_symbol_prefix}."
                         self.next_local_symbol_prefix += 1
@@ -107,6 +119,8 @@ class Compiler:
                                     return b"\x00" * length
 
                                 chunk = Deferred[bytes](fn)
+                                if VERIF_HOOKS:
+                                    self.verif_hook("skip", insn, state, chunk)
                                 data += chunk
                                 if isinstance(chunk, BaseDeferred):
                                     addr += chunk.length()
@@ -136,6 +150,12 @@ class Compiler:
             pass
 
         return data
+
+
+    def verif_hook(self, kind, insn, state, chunk):
+        if not hasattr(self, "verif_trace"):
+            self.verif_trace = []
+        self.verif_trace.append((kind, insn, state, chunk))
 
 
     def compile_label(self, label, addr, state):
